@@ -1499,3 +1499,44 @@ package crypto
 //@ loop 2 invariant 0 <= i && i <= len(verifInt) && len(verifInt) == len(sigs) && len(returnBool) == len(sigs) && fresh(returnBool) && len(falseSlice) == len(sigs) && fresh(falseSlice) && obj(returnBool) != obj(falseSlice)
 //@ loop 2 invariant forall(k, 0, len(sigs), !falseSlice[k])
 //@ loop 2 invariant forall(k, 0, len(sigs), typeis(pks[k], *pubKeyBLSBLS12381) && ((len(sigs[k]) != 48 || unbox(pks[k], *pubKeyBLSBLS12381).isIdentity) ==> !returnBool[k]))
+
+// ---- aggregation of signatures and private keys (C09/C19: memory safety, frames, error classes; the sums themselves
+// are not specified: no fold theory)
+//@ cfunc E1_sum_vector props C09
+//@ requires sum != nil && len >= 0 && valid(y, len)
+//@ assigns *sum
+//@ loop 1 invariant 0 <= i && i <= len
+//@ loop 1 assigns *sum, i
+
+//@ cfunc E1_sum_vector_byte props C05 C09 C19
+//@ requires in_len >= 0 && valid(in_bytes, in_len) && valid(out, 48)
+//@ assigns out[0:48]
+//@ ensures [length-must-be-a-multiple-of-48] in_len % 48 != 0 ==> result == INVALID
+//@ ensures [verdict-is-valid-or-invalid] result == VALID || result == INVALID
+//@ loop 1 invariant 0 <= i && i <= n && n == in_len / 48 && in_len % 48 == 0 && n >= 0 && error == UNDEFINED
+//@ loop 1 assigns vec[0:n], i, error
+
+//@ func AggregateBLSSignatures mode int props C05 C09 C19
+//@ dead-return 1   // E1_sum_vector_byte only returns VALID or INVALID
+//@ assigns nothing
+//@ ensures [empty] len(sigs) == 0 ==> result0 == nil && result1 == errBLSAggregateEmptyList
+//@ ensures [wrong-length-signature] len(sigs) > 0 && exists(k, 0, len(sigs), len(sigs[k]) != 48) ==> len(result0) == 0 && iserr(result1, errInvalidSignature)
+//@ ensures [ok] result1 == nil ==> len(result0) == 48 && fresh(result0)
+//@ ensures [error] result1 != nil ==> len(result0) == 0
+//@ loop 1 invariant 0 <= i && i <= len(sigs) && len(flatSigs) == 48*i && forall(k, 0, i, len(sigs[k]) == 48)
+
+//@ func AggregateBLSPrivateKeys mode int props C09 C19
+//@ requires forall(k, 0, len(keys), typeis(keys[k], *prKeyBLSBLS12381) ==> unbox(keys[k], *prKeyBLSBLS12381) != nil)
+//@ assigns nothing
+//@ ensures [empty] len(keys) == 0 ==> result0 == nil && result1 == errBLSAggregateEmptyList
+//@ ensures [not-bls-key] len(keys) > 0 && exists(k, 0, len(keys), !typeis(keys[k], *prKeyBLSBLS12381)) ==> result0 == nil && iserr(result1, errNotBLSKey)
+//@ ensures [ok] result1 == nil ==> typeis(result0, *prKeyBLSBLS12381) && fresh(unbox(result0, *prKeyBLSBLS12381)) && unbox(result0, *prKeyBLSBLS12381).pk == nil
+//@ loop 1 invariant len(scalars) == i && forall(k, 0, i, typeis(keys[k], *prKeyBLSBLS12381))
+
+//@ func IsBLSSignatureIdentity mode int props C09 C19
+//@ assigns nothing
+
+//@ func VerifyBLSSignatureOneMessage mode int props C09 C19
+//@ requires noTypedNilKeys(pks)
+//@ assigns ghost(kmac)
+//@ ensures [empty] len(pks) == 0 ==> !result0 && iserr(result1, errBLSAggregateEmptyList)
